@@ -52,6 +52,17 @@ func c04Build(seed uint64, shape string) (*lib.Build, *lib.Build, []string) {
 			}
 			feats = append(feats, fmt.Sprintf("size=%d/%s", sz, cl))
 		}
+		// two consecutive blocks with the same weak hash and different content; names with consecutive dots
+		tw := lib.RandomBytes(lib.BS, r.Uint64())
+		tw2 := append([]byte(nil), tw...)
+		for o := 100; o+3 < len(tw2); o++ {
+			if tw2[o] < 255 && tw2[o+1] >= 2 && tw2[o+2] < 255 {
+				tw2[o], tw2[o+1], tw2[o+2] = tw2[o]+1, tw2[o+1]-2, tw2[o+2]+1
+				break
+			}
+		}
+		nb.PutFile("v1..2/weak-twins.bin", append(append(append([]byte(nil), tw...), tw2...), tw[:r.Range(1, 5000)]...))
+		nb.PutFile("docs/notes..txt", lib.RandomBytes(int64(r.Range(1, 3000)), r.Uint64()))
 		nb.PutDir("emptydir")
 		nb.PutSymlink("lnk", lib.OddDest(r, "x"))
 		nb.PutSymlink("x/lnk2", lib.OddDest(r, "../emptydir"))
